@@ -34,6 +34,7 @@ def run(ctx):
     ctx.rule("C02.R1", "every instruction class that may write memory stops the backward store search; the dead-store search also stops at every class that may read memory", floor=10)
     ctx.rule("C02.R2", "replace_use replaces every occurrence of the old value (no first-occurrence .index) in every operand container", floor=5)
     ctx.rule("C02.R3", "CSE keys only pure classes and the key holds every value-determining field", floor=3)
+    ctx.rule("C02.R7", "tail-call elimination only rewrites `r = call f(..); return r` of the function itself: the returned value is the call's result, the call directly precedes the return, the callee is the function being compiled", floor=5)
     ctx.rule("C02.R6", "volatile accesses are excluded from forwarding, dead-store removal and mem2reg promotion", floor=4)
     project = ctx.project
     inst = ctx.cls(IR, "Instruction")
@@ -146,6 +147,39 @@ def run(ctx):
         if isinstance(n, ast.If) and ".volatile" in norm(n.test) and "stores" in norm(n.test) and "loads" in norm(n.test):
             ok = any(isinstance(x, ast.Return) and norm(x.value) == "False" for x in n.body)
     ctx.ob("C02.R6", "ppci/opt/mem2reg.py:is_alloc_promotable", "an alloc with a volatile load or store is not promoted to a register", ok, construct="mem2reg-volatile")
+
+    _tailcall(ctx)
+
+
+def _tailcall(ctx):
+    from .. import sym
+    TC = "ppci/opt/tailcall.py"
+    of = ctx.fn(TC, "TailCallOptimization.on_function")
+    site = TC + ":TailCallOptimization.on_function"
+    ctx.need(len(of.args.args) == 2, "on_function(self, function) signature changed")
+    fparam = of.args.args[1].arg
+    env = sym.single_assign_env(of)
+    apps = [c for c in ast.walk(of) if isinstance(c, ast.Call) and last_name(c) == "append" and c.args and isinstance(c.args[0], ast.Tuple) and len(c.args[0].elts) == 2]
+    ctx.need(len(apps) == 1, "on_function: collection of (return, call) candidates not found")
+    r_, c_ = (norm(sym.deep_inline(e, env)) for e in apps[0].args[0].elts)
+    conj = [(norm(e), pol, e) for e, pol in sym.conjuncts(apps[0], of, env)]
+    def holds(*texts):
+        return any(pol and t in texts for t, pol, _ in conj)
+    def ident(a, b):
+        return holds("%s is %s" % (a, b), "%s is %s" % (b, a), "%s == %s" % (a, b), "%s == %s" % (b, a))
+    ctx.ob("C02.R7", site, "the candidate's first element is an ir.Return", holds("isinstance(%s, ir.Return)" % r_), construct="is-return", node=apps[0], detail=r_)
+    ctx.ob("C02.R7", site, "the candidate's second element is an ir.FunctionCall", holds("isinstance(%s, ir.FunctionCall)" % c_), construct="is-call", node=apps[0], detail=c_)
+    ctx.ob("C02.R7", site, "the value returned is the result of that call (a call whose result is discarded, followed by `return x`, is not a tail call)", ident(c_, r_ + ".result"), construct="returns-call-result", node=apps[0], detail="; ".join(t for t, p, _ in conj))
+    ctx.ob("C02.R7", site, "the callee is the function under optimization", ident(c_ + ".callee", fparam), construct="self-recursive", node=apps[0])
+    import re
+    mr, mc = re.fullmatch(r"(\w+)\[-1\]", r_), re.fullmatch(r"(\w+)\[-2\]", c_)
+    ctx.ob("C02.R7", site, "the return is the last instruction of the block and the call is the instruction directly before it (nothing with a side effect in between)", bool(mr and mc and mr.group(1) == mc.group(1)), construct="adjacent", node=apps[0], detail="%s, %s" % (r_, c_))
+    if mr:
+        ctx.ob("C02.R7", site, "the block has at least two instructions before block[-2] is inspected", holds("len(%s) >= 2" % mr.group(1), "len(%s) > 1" % mr.group(1), "2 <= len(%s)" % mr.group(1)), construct="len-guard", node=apps[0])
+    rw = ctx.fn(TC, "TailCallOptimization.rewrite_tailcalls")
+    z = [c for c in ast.walk(rw) if isinstance(c, ast.Call) and norm(c.func) == "zip"]
+    ok = len(z) == 1 and len(z[0].args) == 2 and norm(z[0].args[0]) == "arg_phis" and norm(z[0].args[1]).endswith(".arguments")
+    ctx.ob("C02.R7", TC + ":TailCallOptimization.rewrite_tailcalls", "each argument phi receives the call's actual argument of the same position from the jumping block", ok, construct="phi-arguments", detail=norm(z[0]) if z else "")
 
 
 def _anc(n):
